@@ -253,12 +253,15 @@ def main():
             'name': 'tlc+harness', 'path': 'harness/', 'serves_properties': [c['property_id'] for c in checks],
             'kind_free_text': 'explicit TLA+ specifications in spec/ checked by TLC 1.8 (exhaustive / simulation), bound to '
                               'the Python implementation by replay of TLC states/behaviours into the real objects and by TLC '
-                              'batch validation of traces recorded from the real code',
+                              'batch validation of traces recorded from the real code; Apalache 0.58 (SMT) proves two '
+                              'arithmetic laws over unbounded integers (C08 WarnCountApa, C05 LinksOrderApa), each tied to the '
+                              'TLC operators by a bridge invariant',
         }],
         'checks': checks,
         'not_applicable': na,
         'notes': 'All checks: exit 0 held, 1 violation (VIOLATION line), 2 machinery failure. VERIF_SEED seeds every random '
-                 'choice. Known findings: known_findings.json.',
+                 'choice. Known findings: known_findings.json. A watchdog turns a hung run into exit 2; every scratch directory of a '
+                 'run lives under one root in /tmp that is removed at exit.',
     }
     if not na:
         del man['not_applicable']
